@@ -185,6 +185,7 @@ thread_local! {
     static EVALS: Cell<u64> = const { Cell::new(0) };
     static CLAMP_REGION: Cell<u64> = const { Cell::new(0) };
     static TIGHT: Cell<u64> = const { Cell::new(0) };
+    static ROTATED: Cell<u64> = const { Cell::new(0) };
 }
 
 fn check_ms<T: Fl>(cx: &mut Ctx, step: usize, c: usize, ch: &Chan, got: f64, which: &str) -> bool {
@@ -245,7 +246,13 @@ where
     <F::Sample as Sample>::Float: Fl,
 {
     type T<F> = <<F as Frame>::Sample as Sample>::Float;
-    let mut rms: Rms<F, Vec<F::Float>> = Rms::new(ring_buffer::Fixed::from(vec![F::Float::EQUILIBRIUM; n]));
+    // the all-equilibrium window is handed over at a rotation derived from the case (a ring
+    // buffer that has been used before, or built with from_raw_parts, starts anywhere)
+    let first = (frames.len() + 3 * acts.len()) % n;
+    if first != 0 {
+        ROTATED.with(|c| c.set(c.get() + 1));
+    }
+    let mut rms: Rms<F, Vec<F::Float>> = Rms::new(ring_buffer::Fixed::from_raw_parts(first, vec![F::Float::EQUILIBRIUM; n]));
     let nch = F::CHANNELS;
     let mut chans: Vec<Chan> = (0..nch).map(|_| Chan::new(n)).collect();
     if rms.window_frames() != n {
@@ -337,7 +344,11 @@ where
     type T<F> = <<F as Frame>::Sample as Sample>::Float;
     let probe = Probe::new();
     let src = USource::finite(Rc::new(frames.to_vec()), probe.clone());
-    let mut sig = src.rms(ring_buffer::Fixed::from(vec![F::Float::EQUILIBRIUM; n]));
+    let first = (frames.len() + 1) % n;
+    if first != 0 {
+        ROTATED.with(|c| c.set(c.get() + 1));
+    }
+    let mut sig = src.rms(ring_buffer::Fixed::from_raw_parts(first, vec![F::Float::EQUILIBRIUM; n]));
     let nch = F::CHANNELS;
     let mut chans: Vec<Chan> = (0..nch).map(|_| Chan::new(n)).collect();
     for (step, fr) in frames.iter().enumerate() {
@@ -552,6 +563,7 @@ fn main() {
     rep.oblige("reset_mid_stream", 1);
     rep.oblige("adaptor_histories", 1);
     rep.oblige("tight_interval_checks", 1);
+    rep.oblige("window_handed_over_rotated", 1);
     rep.oblige("drift_dominated_checks", 0);
 
     // job list: (format, window, history, channels)
@@ -615,4 +627,5 @@ fn flush(rep: &mut Report) {
     rep.eval(EVALS.with(|c| c.replace(0)));
     rep.hit_n("tight_interval_checks", TIGHT.with(|c| c.replace(0)));
     rep.hit_n("drift_dominated_checks", CLAMP_REGION.with(|c| c.replace(0)));
+    rep.hit_n("window_handed_over_rotated", ROTATED.with(|c| c.replace(0)));
 }
